@@ -50,8 +50,18 @@ type c14log struct {
 	w          *simrt.World
 	mu         sync.Mutex
 	ev         []c14ev
-	faultStamp int64            // stamp of the injected tier failure, 0 = none fired
-	cur        map[uint64]int64 // goroutine id -> facade operation it is executing
+	faultStamp int64               // stamp of the injected tier failure, 0 = none fired
+	cur        map[uint64]int64    // goroutine id -> facade operation it is executing
+	outs       map[int64][2]string // facade operation -> {kind, what it reported to its caller}
+}
+
+func (l *c14log) reported(opid int64, kind, out string) {
+	l.mu.Lock()
+	if l.outs == nil {
+		l.outs = map[int64][2]string{}
+	}
+	l.outs[opid] = [2]string{kind, out}
+	l.mu.Unlock()
 }
 
 // c14goid returns the id of the calling goroutine (only used to tell an operation's own tier
@@ -598,6 +608,16 @@ func (e *c14env) c14mechanisms(key, cat string, hs []c14h, T int64, staleVal str
 	if lateFor("") {
 		out = append(out, "late-writeback")
 	}
+	// a write that told its caller it had succeeded although one of its tier operations failed outranks
+	// the topology-level explanation below; other outcomes of the fault keep their place after it
+	fc := ""
+	if e.faultHit(key, T) {
+		fc = e.faultClass()
+		if strings.HasSuffix(fc, ":reported-success") || fc == "cache-write-error-swallowed" {
+			out = append(out, fc)
+			fc = ""
+		}
+	}
 	// other-node-cache
 	if e.cacheIsNodeLocal(cat) {
 		_ = rnode
@@ -617,8 +637,8 @@ func (e *c14env) c14mechanisms(key, cat string, hs []c14h, T int64, staleVal str
 		}
 	}
 	// injected fault
-	if e.faultHit(key, T) {
-		out = append(out, e.faultClass())
+	if fc != "" {
+		out = append(out, fc)
 	}
 	// concurrent-writes: per write op the stamp at which it reached the persistent tier and its cache tier
 	type reach struct {
@@ -754,15 +774,35 @@ func (e *c14env) faultClass() string {
 	e.lg.mu.Lock()
 	defer e.lg.mu.Unlock()
 	for _, ev := range e.lg.ev {
-		if ev.stamp == e.lg.faultStamp {
-			switch {
-			case ev.class == "cache" && (ev.op == "Get" || ev.op == "Exists"):
-				return "cache-read-error-masked-as-absent"
-			case ev.class == "cache" && ev.op == "Set":
-				return "cache-write-error-swallowed"
-			}
-			return "tier-fault-" + ev.class + "-" + ev.op
+		if ev.stamp != e.lg.faultStamp {
+			continue
 		}
+		// what the facade operation during which the tier failed told its caller is part of the class:
+		// a failure that was reported leaves the caller knowing the operation may not have happened; one
+		// that was answered as if nothing had failed does not
+		outcome := "in-background-fill"
+		if ko, ok := e.lg.outs[ev.opid]; ok {
+			outcome = "reported-success"
+			if ko[1] == "err" {
+				outcome = "reported-error"
+			}
+		} else if ev.opid != 0 {
+			outcome = "outside-facade-operation"
+		}
+		if ko, ok := e.lg.outs[ev.opid]; ok && outcome == "reported-success" && (ko[0] == "Get" || ko[0] == "Exists" || ko[0] == "GetList") &&
+			ko[1] != "notfound" && ko[1] != "false" && ko[1] != "l:[]" {
+			outcome = "answered-from-other-tier" // a read that still produced a value: nothing was masked
+		}
+		ko := e.lg.outs[ev.opid]
+		isRead := ko[0] == "Get" || ko[0] == "Exists" || ko[0] == "GetList"
+		switch {
+		case ev.class == "cache" && (ev.op == "Get" || ev.op == "Exists") && outcome == "reported-success" && isRead:
+			// the read answered not-found / false / empty although the cache read had failed
+			return "cache-read-error-masked-as-absent:" + ev.op
+		case ev.class == "cache" && ev.op == "Set" && outcome == "reported-success":
+			return "cache-write-error-swallowed"
+		}
+		return "tier-fault-" + ev.class + "-" + ev.op + ":" + outcome
 	}
 	return "tier-fault"
 }
@@ -1015,6 +1055,7 @@ func (e *c14env) exec(client string, o c14op) c14h {
 		w.Sleep(331 * time.Millisecond)
 		rec.out = "-"
 	}
+	e.lg.reported(rec.call, o.Kind, rec.out)
 	w.Yield("c14.return")
 	rec.ret = w.Stamp()
 	return rec
